@@ -27,7 +27,10 @@ OVERRIDES = [None, "", "On", "on", "ON", "oN", "Off", "off", "OFF", "other", "1"
 SECRET = "S3CR3T-T0K3N-9917"
 FAILS = ["none", "ctor", "before", "endpoint", "status", "after"]
 PATHS = {"hit": "/hit", "debuginfo": "/debug-info", "unknown": "/no/such", "listing": "/dir/", "rx": "/rx/5",
-         "file": "/dir/f.txt", "postonly": "/post-only"}
+         "file": "/dir/f.txt", "postonly": "/post-only",
+         # near spellings of the debug address: unknown paths like any other
+         "dbgslash": "/debug-info/", "dbgsub": "/debug-info/x", "dbgdouble": "//debug-info", "dbgupper": "/Debug-Info",
+         "dbgdot": "/./debug-info", "dbgext": "/debug-info.html"}
 ENDPOINT_PATHS = ("hit", "rx")
 METHODS = ["GET", "HEAD", "POST", "DELETE", "BREW"]
 
